@@ -43,3 +43,23 @@ print("   target:", res[1])
 print("5. did=0 (no faults at all): the initiator sends a DID byte 0, the target holds did=None and ignores every PDU")
 res, ini, tgt, air = conv(10, [], did=0)
 print("   initiator:", res[0])
+print("6. the same Initiator and Target objects are activated again after a session of one exchange (no faults):")
+air = Air(); ci, ct = air.frontends(); air.clock.install(nfc.dep, nfc.clf)
+ini, tgt = nfc.dep.Initiator(ci), nfc.dep.Target(ct)
+def fi():
+    for s in range(2):
+        assert ini.activate(brs=0, acm=False) is not None
+        ini.exchange(b"hello", 1.0)
+        ini.deactivate()
+    return "both sessions fine"
+def ft():
+    for s in range(2):
+        assert tgt.activate(timeout=5.0) is not None
+        r = tgt.exchange(None, 100.0)
+        while r is not None:
+            r = tgt.exchange(b"world", 100.0)
+try:
+    res = air.run(fi, ft)
+finally:
+    air.clock.uninstall()
+print("   initiator:", res[0], " (target.pni was still 0 from the first session)")
